@@ -682,3 +682,341 @@ Theorem C09_source_constants :
   Gen.Consts.rpcbackend_RPCCodeInternalError = Rpc.Model.RPCCodeInternalError.
 Proof. vm_compute. repeat split; reflexivity. Qed.
 Print Assumptions C09_source_constants.
+
+(* ================= 9. C09 ∘ C08 ∘ C01: the signer is property C01's Transaction.Sign =================
+   Section 8 left one law about firefly-signer code as a hypothesis: signer_sound ("what key k signs is the
+   EIP wire format of the requested fields and recovers to the address of k").  Here the wallet's external
+   signer is DEFINED (Rpc/WithSigner.v, [with_signer o H nonce fuel E0]):
+        keys          private scalars d : N
+        addr_of d     the address of d*G            (C05: Secp.Proofs.addr_of, via Tx/SignProofs3.secp_address)
+        sign_tx d (t, chain)
+                      Tx.Model.Sign (to_tx t) (KeyPair d) chain — C01's model of Transaction.Sign in its
+                      automatic mode (EIP-1559 when a fee field is positive, else EIP-155) with C05's model
+                      of KeyPair.SignDirect over the abstract ECDSA group o of Crypto/Ecdsa.v, hash H,
+                      nonce stream [nonce];  [to_tx] is the type bridge from the transaction record of the
+                      proxy model (decoded ethsigner.Transaction) to Tx.Model's
+        everything else (regexp, templates, keystore reader, typed-data signer) stays the parameter E0
+   and signer_sound is PROVED from C01's end-to-end theorem under C01's guards ([c01_guards]):
+        1 <= d < n o, 0 <= chain <= 2^53, 20-byte destination, every integer field below 2^256, data of at
+        most 2^31-1024 bytes, and V in {27,28} for the one digest signed ([v_legacy_for]: fails only when
+        x(kG) >= n, probability about 2^-128 on secp256k1), given [laws o], n o < 2^256, |H x| = 32.
+   [ecrecover] of the specification is C05's model of SignatureData.RecoverDirect on V = 27 + yParity
+   ([secp_ecrecover o H]).  The corollaries of section 8 are then restated without signer_sound. *)
+From Coq Require Import Lia Arith.
+From FFS Require Import Crypto.Ecdsa.
+From FFS Require Tx.Model Tx.Norm Tx.SignProofs Tx.SignProofs4 Secp.Model.
+From FFS Require Import Rpc.WithSigner Rpc.WithSignerE2E.
+
+(* 9a. The type bridge.  The field tuple / format C01's theorems speak about ([norm], [format_of Auto] of
+       the bridged transaction) are the ones C09's specification speaks about; the decoder yields 20-byte
+       destinations; the range guard stated on the request ([fields_in_range]) gives C01's [in_range]. *)
+Theorem C09_type_bridge :
+  (forall t, Tx.Norm.norm (to_tx t) = requested_fields t) /\
+  (forall t, Tx.Norm.format_of Tx.Model.Auto (to_tx t) = requested_format t) /\
+  (forall parse_int p t, decode_transaction parse_int p = Ok t -> to_len_ok t) /\
+  (forall t, to_len_ok t -> fields_in_range t -> Tx.SignProofs4.in_range (to_tx t)).
+Proof. exact (conj norm_to_tx (conj format_to_tx (conj decode_transaction_to_ok in_range_to_tx))). Qed.
+Print Assumptions C09_type_bridge.
+
+(* 9b. signer_sound, proved: what key d signs for (t, chain) is the specification encoding of the requested
+       fields of t in the requested format under chain, with a signature that recovers to the address of d. *)
+Theorem C09_signer_sound_from_C01 :
+  forall (o : group_ops) (H : bytes -> bytes) (nonce : Z -> bytes -> nat -> Z) (fuel : nat),
+    laws o -> (n o < Secp.Model.two256)%Z -> (forall x, length (H x) = 32%nat) ->
+    forall d t chain raw,
+      c01_guards o H nonce fuel d t chain ->
+      c01_sign o H nonce fuel d (t, chain) = Ok raw ->
+      raw_recovers_to H (secp_ecrecover o H) raw (Z.to_N chain) (c01_addr o H d) (requested_format t) (requested_fields t).
+Proof. exact c01_signer_sound. Qed.
+Print Assumptions C09_signer_sound_from_C01.
+
+(* ... and the bytes spelt out: the signature inside is the one C05's SignDirect answers over the hash of the
+   specification's preimage; it is canonical (low S) and verifies against d*G *)
+Theorem C09_signer_bytes_are_spec :
+  forall (o : group_ops) (H : bytes -> bytes) (nonce : Z -> bytes -> nat -> Z) (fuel : nat),
+    laws o -> (n o < Secp.Model.two256)%Z -> (forall x, length (H x) = 32%nat) ->
+    forall d t chain raw,
+      c01_guards o H nonce fuel d t chain -> c01_sign o H nonce fuel d (t, chain) = Ok raw ->
+      let fm := requested_format t in
+      let f := requested_fields t in
+      let pre := spec_preimage fm f (Z.to_N chain) in
+      exists v r s,
+        Secp.Model.SignDirect o nonce fuel (Z.of_N d) (H pre) = Ok {| Secp.Model.sV := v; Secp.Model.sR := r; Secp.Model.sS := s |} /\
+        (1 <= r < n o)%Z /\ (1 <= s < n o)%Z /\ (2 * s <= n o)%Z /\
+        ecdsa_verify o (pub o (Z.of_N d)) (Secp.Model.hash_to_z (H pre)) r s = true /\
+        raw = spec_signed fm f (Z.to_N chain) (Tx.SignProofs.y_of v) (Z.to_N r) (Z.to_N s).
+Proof. exact c01_sign_is_spec. Qed.
+Print Assumptions C09_signer_bytes_are_spec.
+
+(* 9c. The guards, unfolded (so that they can be read here), and the signer never panics. *)
+Theorem C09_signer_guards_mean :
+  forall (o : group_ops) (H : bytes -> bytes) (nonce : Z -> bytes -> nat -> Z) (fuel : nat) d t chain,
+    (c01_guards o H nonce fuel d t chain <->
+     (1 <= Z.of_N d < n o)%Z /\ (0 <= chain <= 2 ^ 53)%Z /\
+     match tx_to t with Some a => length a = 20%nat | None => True end /\
+     ((nz (tx_nonce t) < 2 ^ 256)%N /\ (nz (tx_gasPrice t) < 2 ^ 256)%N /\
+      (nz (tx_maxPriorityFeePerGas t) < 2 ^ 256)%N /\ (nz (tx_maxFeePerGas t) < 2 ^ 256)%N /\
+      (nz (tx_gas t) < 2 ^ 256)%N /\ (nz (tx_value t) < 2 ^ 256)%N /\
+      (N.of_nat (length (tx_data t)) <= 2147482624)%N) /\
+     (forall sg,
+        Secp.Model.SignDirect o nonce fuel (Z.of_N d)
+          (H (spec_preimage (requested_format t) (requested_fields t) (Z.to_N chain))) = Ok sg ->
+        Secp.Model.sV sg = 27%Z \/ Secp.Model.sV sg = 28%Z)) /\
+    (forall tc, c01_sign o H nonce fuel d tc <> Panic).
+Proof. exact (fun o H nonce fuel d t chain => conj (iff_refl _) (c01_sign_nopanic o H nonce fuel d)). Qed.
+Print Assumptions C09_signer_guards_mean.
+
+(* 9d. Every key the wallet signs with came out of the keystore reader: a property P of all keys the reader
+       yields holds of the key file owning `from` in every reachable wallet state (used with P := 1 <= d < n). *)
+Theorem C09_wallet_keys_come_from_reader :
+  forall (doc tsig : Type) (E : W.ext N (transaction * Z) bytes doc tsig) (c : W.config) (P : N -> Prop),
+    reader_yields E P ->
+    forall fs h a k, key_of_from E c (fs_state E c fs h) a k -> P k.
+Proof. exact (@key_of_from_yields). Qed.
+Print Assumptions C09_wallet_keys_come_from_reader.
+
+(* what "the frame fr is the submission request rq asked for, as specified" means *)
+Theorem C09_submission_specified_means :
+  forall (doc tsig : Type) (o : group_ops) (H : bytes -> bytes) (nonce : Z -> bytes -> nat -> Z) (fuel : nat)
+         (E0 : W.ext N (transaction * Z) bytes doc tsig) (c : W.config) parse_int backend chain s rq fr,
+    submission_specified o H nonce fuel E0 c parse_int backend chain s rq fr <->
+    exists p0 rest tx f a nonce_used raw d,
+      rq_params rq = p0 :: rest /\ decode_transaction parse_int p0 = Ok tx /\
+      tx_from tx = Some f /\ dec_address f = Ok a /\
+      nonce_source parse_int backend tx a nonce_used (pre_frames tx a) /\
+      key_of_from (with_signer o H nonce fuel E0) c s a d /\ c01_addr o H d = a /\ In a (fs_accounts s) /\
+      fr = raw_frame raw /\
+      c01_sign o H nonce fuel d (set_nonce tx nonce_used, chain) = Ok raw /\
+      (fields_in_range (set_nonce tx nonce_used) -> v_legacy_for o H nonce fuel d (set_nonce tx nonce_used) chain ->
+       raw_recovers_to H (secp_ecrecover o H) raw (Z.to_N chain) a
+                       (requested_format tx) (requested_fields (set_nonce tx nonce_used))).
+Proof. exact (fun doc tsig o H nonce fuel E0 c parse_int backend chain s rq fr => iff_refl _). Qed.
+Print Assumptions C09_submission_specified_means.
+
+(* 9e. Only-if, per request, in every reachable wallet state, with wallet and signer concrete: a
+       raw-transaction frame of an eth_sendTransaction request is its submission as specified. *)
+Theorem C09_end_to_end_per_request :
+  forall (doc tsig : Type) (o : group_ops) (H : bytes -> bytes) (nonce : Z -> bytes -> nat -> Z) (fuel : nat)
+         (E0 : W.ext N (transaction * Z) bytes doc tsig) (c : W.config) parse_int backend chain,
+    laws o -> (n o < Secp.Model.two256)%Z -> (forall x, length (H x) = 32%nat) ->
+    (0 <= chain <= 2 ^ 53)%Z ->
+    reader_yields (with_signer o H nonce fuel E0) (key_in_range o) ->
+    forall fs h rq out fr,
+      let E := with_signer o H nonce fuel E0 in
+      let s := fs_state E c fs h in
+      rq_method rq = bs "eth_sendTransaction" ->
+      fs_processRPC E c parse_int backend chain s (Some rq) = Ok out -> In fr (o_frames out) -> is_raw_frame fr = true ->
+      submission_specified o H nonce fuel E0 c parse_int backend chain s rq fr.
+Proof. exact (@e2e_raw_only_if). Qed.
+Print Assumptions C09_end_to_end_per_request.
+
+(* 9f. Theorem 1 with wallet and signer concrete: a decodable eth_sendTransaction whose `from` parses is
+       answered under the caller's id; either the frames are the count query (iff no nonce was supplied)
+       followed by exactly one submission as specified, whose backend answer is relayed, or only the count
+       query was made and the reply is a proxy error. *)
+Theorem C09_end_to_end_send_tx :
+  forall (doc tsig : Type) (o : group_ops) (H : bytes -> bytes) (nonce : Z -> bytes -> nat -> Z) (fuel : nat)
+         (E0 : W.ext N (transaction * Z) bytes doc tsig) (c : W.config) parse_int backend chain,
+    laws o -> (n o < Secp.Model.two256)%Z -> (forall x, length (H x) = 32%nat) ->
+    (0 <= chain <= 2 ^ 53)%Z ->
+    reader_yields (with_signer o H nonce fuel E0) (key_in_range o) ->
+    forall fs h rq id p0 rest tx f a,
+      let E := with_signer o H nonce fuel E0 in
+      let s := fs_state E c fs h in
+      WP3.ext_nopanic N (transaction * Z)%type bytes doc tsig E0 -> WP3.fs_nopanic fs -> ops_ok h ->
+      rq_id rq = Some id -> rq_method rq = bs "eth_sendTransaction" -> rq_params rq = p0 :: rest ->
+      decode_transaction parse_int p0 = Ok tx -> tx_from tx = Some f -> dec_address f = Ok a ->
+      exists resp err frames,
+        fs_processRPC E c parse_int backend chain s (Some rq) = Ok (Some resp, err, frames) /\
+        rs_id resp = Some id /\
+        ((exists raw,
+            frames = pre_frames tx a ++ [raw_frame raw] /\
+            submission_specified o H nonce fuel E0 c parse_int backend chain s rq (raw_frame raw) /\
+            (resp, err) = fst (SyncRequest backend (send_raw_request rq raw)))
+         \/ (frames = pre_frames tx a /\ err = true /\ is_proxy_error resp (Some id))).
+Proof. exact (@e2e_send_tx). Qed.
+Print Assumptions C09_end_to_end_send_tx.
+
+(* 9g. END TO END.  For every history of requests (any wallet operations in between — scans, cache fills,
+       file-system changes, listener events, evictions —, any bodies, any completion orders) against the proxy
+       model over a fresh file-system wallet on any file system, with the C01 signer, whatever the backend
+       answers: every state met is a reachable wallet state, and every eth_sendRawTransaction frame sent to
+       the backend is either the caller's own eth_sendRawTransaction relayed unchanged, or stems from an
+       eth_sendTransaction member rq of that body and is its submission as specified (9d'): the first
+       parameter of rq decodes to tx, `from` parses to a, the nonce is the one rq supplied or the pending
+       count the backend reported, the key d is that of the key file owning a (address a, listed), the bytes
+       are Transaction.Sign's output for d, and — for fields below 2^256 and V in {27,28} — they are the
+       specification encoding (Tx/Spec.v) of exactly those fields in the requested format for the configured
+       chain id and recover to a. *)
+Theorem C09_end_to_end :
+  forall (doc tsig : Type) (o : group_ops) (H : bytes -> bytes) (nonce : Z -> bytes -> nat -> Z) (fuel : nat)
+         (E0 : W.ext N (transaction * Z) bytes doc tsig) (c : W.config) parse_int lex backend chain,
+    laws o -> (n o < Secp.Model.two256)%Z -> (forall x, length (H x) = 32%nat) ->
+    (0 <= chain <= 2 ^ 53)%Z ->
+    reader_yields (with_signer o H nonce fuel E0) (key_in_range o) ->
+    forall fs (hist : list request),
+      let E := with_signer o H nonce fuel E0 in
+      Forall (fun x : W.state N * bytes * res http_reply =>
+                let '(s, body, reply) := x in
+                (exists h, s = fs_state E c fs h) /\
+                forall status tree traces frames fr,
+                  reply = Ok (status, tree, traces) -> In frames traces -> In fr frames -> is_raw_frame fr = true ->
+                  exists rq, In (Some rq) (members_of lex body) /\
+                    ((rq_method rq = bs "eth_sendRawTransaction" /\ fr = mkFrame (rq_method rq) (rq_params rq)) \/
+                     (rq_method rq = bs "eth_sendTransaction" /\
+                      submission_specified o H nonce fuel E0 c parse_int backend chain s rq fr)))
+             (serve E c parse_int lex backend chain (W.init_state N fs) hist).
+Proof. exact (@end_to_end). Qed.
+Print Assumptions C09_end_to_end.
+
+(* 9h. ... and no request of such a history panics (8j with the signer's no-panic law discharged). *)
+Theorem C09_end_to_end_no_panic :
+  forall (doc tsig : Type) (o : group_ops) (H : bytes -> bytes) (nonce : Z -> bytes -> nat -> Z) (fuel : nat)
+         (E0 : W.ext N (transaction * Z) bytes doc tsig) (c : W.config) parse_int lex backend chain fs (hist : list request),
+    WP3.ext_nopanic N (transaction * Z)%type bytes doc tsig E0 -> WP3.fs_nopanic fs -> history_ok lex hist ->
+    Forall (fun x : W.state N * bytes * res http_reply => snd x <> Panic)
+           (serve (with_signer o H nonce fuel E0) c parse_int lex backend chain (W.init_state N fs) hist).
+Proof. exact (@end_to_end_total). Qed.
+Print Assumptions C09_end_to_end_no_panic.
+
+(* ---------- non-vacuity of section 9 ----------
+   The 13-element toy group of Crypto/Ecdsa.v (it satisfies the laws: Toy.toy_laws), a 32-byte "hash", the
+   constant nonce 2.  The address of key d is 19 zero bytes and min(d, 13-d).  The key directory holds
+   ..05.key with key 5 (correct) and ..03.key holding key 5 as well (a foreign key under B's name). *)
+
+Definition gH (x : bytes) : bytes := firstn 32 (x ++ repeat x00 32).
+Lemma gH_len x : length (gH x) = 32%nat.
+Proof. unfold gH. rewrite firstn_length, app_length, repeat_length. apply Nat.min_l. apply Nat.le_add_l. Qed.
+Definition gnonce : Z -> bytes -> nat -> Z := fun _ _ _ => 2%Z.
+
+Definition gA : bytes := repeat x00 19 ++ [x05].     (* the address of keys 5 (and 8) in the toy group *)
+Definition gB : bytes := repeat x00 19 ++ [x03].     (* the address of keys 3 (and 10) *)
+Definition ghex (a : bytes) : bytes := skipn 2 (hex0x a).
+
+Definition gE0 : W.ext N (transaction * Z) bytes unit unit :=
+  {| W.re_compile := fun _ => Some 2%nat;
+     W.re_find := fun _ name => Some [name; name];
+     W.tmpl_parse_ok := fun _ => true;
+     W.meta_parse := fun _ _ => true;
+     W.tmpl_exec := fun _ _ t => (t, true);
+     W.json_string := fun raw => Some raw;
+     W.trim_space := fun s => s;
+     W.path_join := fun a b => a ++ bs "/" ++ b;
+     W.read_wallet := fun content pw =>
+       if bytes_eqb pw (bs "pw") then
+         match content with
+         | [b] => if ((1 <=? b2n b) && (b2n b <? 13))%N then Ok (b2n b) else Err 1%nat
+         | _ => Err 1%nat
+         end
+       else Err 1%nat;
+     W.addr_of := fun _ => [];
+     W.sign_tx := fun _ _ => Err 1%nat;
+     W.sign_td := fun _ _ => Ok tt |}.
+
+Definition gE := with_signer Toy.ops gH gnonce 1 gE0.
+
+Definition gfiles : list (bytes * bool) :=
+  [ (ghex gA ++ bs ".key", false); (ghex gA ++ bs ".pw", false);
+    (ghex gB ++ bs ".key", false); (ghex gB ++ bs ".pw", false) ].
+
+Definition gfs : W.fsys :=
+  {| W.fs_readdir := fun d => if bytes_eqb d (bs "k") then Ok gfiles else Err 1%nat;
+     W.fs_readfile := fun p =>
+       if bytes_eqb p (bs "k/" ++ ghex gA ++ bs ".key") then Ok [x05]
+       else if bytes_eqb p (bs "k/" ++ ghex gB ++ bs ".key") then Ok [x05]
+       else if bytes_eqb p (bs "k/" ++ ghex gA ++ bs ".pw") then Ok (bs "pw")
+       else if bytes_eqb p (bs "k/" ++ ghex gB ++ bs ".pw") then Ok (bs "pw")
+       else Err 1%nat |}.
+
+Definition g_tx155 (from : bytes) : json :=
+  JObj [(bs "from", JStr (hex0x from)); (bs "to", JStr (hex0x (repeat x22 20)));
+        (bs "gas", JStr (bs "0x5208")); (bs "gasPrice", JStr (bs "0x3b9aca00")); (bs "value", JStr (bs "0x1"));
+        (bs "nonce", JStr (bs "0x7")); (bs "data", JStr (bs "0xfeed"))].
+Definition g_send155 (id : String.string) (from : bytes) : json :=
+  request_tree (bs "2.0") (JNum (bs id)) (bs "eth_sendTransaction") [g_tx155 from].
+
+Definition g_lex (body : bytes) : option json :=
+  if bytes_eqb body (bs "1") then Some (w_send "1" gA [])
+  else if bytes_eqb body (bs "2") then Some (g_send155 "2" gA)
+  else if bytes_eqb body (bs "3") then Some (w_send "3" gB [])
+  else None.
+
+Definition g_hist : list (@request unit) :=
+  [ ([W.ORefresh _ _], bs "1", []); ([], bs "2", []); ([], bs "3", []) ].
+
+Definition g_t1 : transaction :=
+  mkTx (Some (JStr (hex0x gA))) (Some 42%N) None None (Some 100%N) (Some 21000%N) (Some (repeat x22 20)) None [].
+Definition g_t2 : transaction :=
+  mkTx (Some (JStr (hex0x gA))) (Some 7%N) (Some 1000000000%N) None None (Some 21000%N) (Some (repeat x22 20)) (Some 1%N) [xfe; xed].
+
+Definition g_summary (x : W.state N * bytes * res http_reply) : option (N * list (list frame)) :=
+  match snd x with
+  | Ok (status, _, traces) => Some (status, traces)
+  | _ => None
+  end.
+
+(* what Transaction.Sign returns for key 5 on the two transactions (computed once) *)
+Definition g_raw1 : bytes :=
+  Eval vm_compute in match c01_sign Toy.ops gH gnonce 1 5 (g_t1, 2022%Z) with Ok r => r | _ => [] end.
+Definition g_raw2 : bytes :=
+  Eval vm_compute in match c01_sign Toy.ops gH gnonce 1 5 (g_t2, 2022%Z) with Ok r => r | _ => [] end.
+
+Example C09_end_to_end_hypotheses_satisfiable :
+  laws Toy.ops /\ (n Toy.ops < Secp.Model.two256)%Z /\ (forall x, length (gH x) = 32%nat) /\ (0 <= 2022 <= 2 ^ 53)%Z /\
+  reader_yields gE (key_in_range Toy.ops) /\
+  WP3.ext_nopanic _ _ _ _ _ gE0 /\ WP3.fs_nopanic gfs /\ history_ok g_lex g_hist.
+Proof.
+  split; [exact Toy.toy_laws|]. split; [reflexivity|]. split; [exact gH_len|]. split; [lia|].
+  split; [|split; [|split]].
+  - intros content pw k. cbn [W.read_wallet gE with_signer gE0].
+    destruct (bytes_eqb pw (bs "pw")); [|discriminate]. destruct content as [|b [|? ?]]; try discriminate.
+    destruct ((1 <=? b2n b) && (b2n b <? 13))%N eqn:Eb; [|discriminate]. intros Hk. injection Hk as <-.
+    apply andb_prop in Eb as [E1 E2]. apply N.leb_le in E1. apply N.ltb_lt in E2.
+    unfold key_in_range. change (n Toy.ops) with 13%Z. lia.
+  - split; [|split].
+    + intros content pw. cbn [W.read_wallet gE0]. destruct (bytes_eqb pw (bs "pw")); [|discriminate].
+      destruct content as [|b [|? ?]]; try discriminate. destruct (_ && _); discriminate.
+    + intros k t. discriminate.
+    + intros k d. discriminate.
+  - split.
+    + intros d. cbn [W.fs_readdir gfs]. destruct (bytes_eqb d (bs "k")); discriminate.
+    + intros p. cbn [W.fs_readfile gfs]. repeat (match goal with |- context [if ?b then _ else _] => destruct b end; try discriminate).
+  - repeat constructor; try exact I;
+      intros t ms Hl Hd; vm_compute in Hl; injection Hl as <-; vm_compute in Hd; discriminate.
+Qed.
+
+Example C09_end_to_end_nonvacuous :
+  (map g_summary (serve gE wc ex_parse g_lex ex_backend 2022%Z (W.init_state N gfs) g_hist) =
+     [ Some (200%N, [[count_frame gA; raw_frame g_raw1]]);
+       Some (200%N, [[raw_frame g_raw2]]);
+       Some (500%N, [[count_frame gB]]) ] /\
+     c01_sign Toy.ops gH gnonce 1 5 (g_t1, 2022%Z) = Ok g_raw1 /\
+     c01_sign Toy.ops gH gnonce 1 5 (g_t2, 2022%Z) = Ok g_raw2 /\
+     raw_recovers_to gH (secp_ecrecover Toy.ops gH) g_raw1 2022 gA Eip1559 (requested_fields g_t1) /\
+     raw_recovers_to gH (secp_ecrecover Toy.ops gH) g_raw2 2022 gA Eip155 (requested_fields g_t2)) /\
+  decode_transaction ex_parse (w_tx gA []) = Ok (set_nonce g_t1 None) /\
+  decode_transaction ex_parse (g_tx155 gA) = Ok g_t2 /\
+  c01_guards Toy.ops gH gnonce 1 5 g_t1 2022 /\ c01_guards Toy.ops gH gnonce 1 5 g_t2 2022 /\
+  requested_format g_t1 = Eip1559 /\ requested_format g_t2 = Eip155 /\
+  key_of_from gE wc (fs_state gE wc gfs [W.ORefresh _ _]) gA 5%N /\
+  fs_accounts (fs_state gE wc gfs [W.ORefresh _ _]) = [gA; gB].
+Proof.
+  assert (G1 : c01_guards Toy.ops gH gnonce 1 5 g_t1 2022).
+  { split; [vm_compute; split; congruence|]. split; [lia|]. split; [reflexivity|]. split.
+    - unfold fields_in_range. repeat split; try (vm_compute; reflexivity). vm_compute; discriminate.
+    - intros sg Hs. vm_compute in Hs. injection Hs as <-. vm_compute. auto. }
+  assert (G2 : c01_guards Toy.ops gH gnonce 1 5 g_t2 2022).
+  { split; [vm_compute; split; congruence|]. split; [lia|]. split; [reflexivity|]. split.
+    - unfold fields_in_range. repeat split; try (vm_compute; reflexivity). vm_compute; discriminate.
+    - intros sg Hs. vm_compute in Hs. injection Hs as <-. vm_compute. auto. }
+  split.
+  - split; [vm_compute; reflexivity|].
+    split; [vm_compute; reflexivity|]. split; [vm_compute; reflexivity|]. split.
+    + apply (c01_signer_sound Toy.ops gH gnonce 1 Toy.toy_laws eq_refl gH_len 5 g_t1 2022%Z _ G1). vm_compute. reflexivity.
+    + apply (c01_signer_sound Toy.ops gH gnonce 1 Toy.toy_laws eq_refl gH_len 5 g_t2 2022%Z _ G2). vm_compute. reflexivity.
+  - split; [vm_compute; reflexivity|]. split; [vm_compute; reflexivity|].
+    split; [exact G1|]. split; [exact G2|]. split; [reflexivity|]. split; [reflexivity|]. split.
+    + split; [vm_compute; reflexivity|]. split; [vm_compute; auto|].
+      right. exists (ghex gA ++ bs ".key"). repeat split; vm_compute; reflexivity.
+    + vm_compute. reflexivity.
+Qed.
